@@ -178,7 +178,7 @@ func TestC17(t *testing.T) {
 		return
 	}
 
-	check(t, "workloads", 120, 300, func(rt *rapid.T) {
+	check(t, "workloads", 120, 400, func(rt *rapid.T) {
 		var w c17Workload
 		var mk func(rt *rapid.T) gonnx.Tensors
 		var opClasses []string
